@@ -140,8 +140,24 @@ def run(ctx):
             rep.violation(dict(kind="correspondence", family="qeval-magnitude", top=t[0]),
                           "model and implementation disagree on %s: impl %s, model %s" % (s, got, m),
                           dict(tree=t, text=s, impl=got, model=m), found_input=False)
+    # --- signed literals written without parentheses: the sign belongs to the magnitude (matters for offset units)
+    raw = [("-40 degC to K", Fraction(23315, 100)), ("-40 degC to degF", None), ("-40 degF to degC", None), ("-5 km to m", Fraction(-5000)),
+           ("+3 m to cm", Fraction(300)), ("-273 degC to K", Fraction(15, 100)), ("-(40 degC) to K", Fraction(-31315, 100)),
+           ("(-40 degC to K) K to degC", Fraction(-40)), ("- 2 h to min", Fraction(-120))]
+    raw_obs = C.run_impl(Q.impl_case, [t for t, _ in raw], ctx["rundir"], limit=10.0)
+    for (t, want), o in zip(raw, raw_obs):
+        got = Q.impl_error_class(o)
+        pi = Q.parse_enc(got)
+        if want is None:
+            ok = pi[0] == "num" and Q.close(pi[1], Fraction(-40), 1e-9)
+        else:
+            ok = pi[0] == "num" and (pi[1] == want or (not pi[2] and Q.close(pi[1], want, 1e-9)))
+        if not ok:
+            rep.violation(dict(kind="wrong-magnitude", top="signed-literal", op="", exact=True),
+                          "C04 fails: %s gives %s, expected %s" % (t, got, want if want is not None else -40),
+                          dict(text=t, impl=got, expected=str(want if want is not None else -40)))
     rep.coverage.update(dict(
-        evaluations=len(trees), distinct_nontrivial=len(nontrivial),
+        evaluations=len(trees) + len(raw), distinct_nontrivial=len(nontrivial),
         rule="the C03 tree set plus, for up to 25 (quick) / 200 (thorough) spellings of every dimension: x U to U, (x U to V) V to U, (x U)/2, (x U + 3 V) to U, (7/2 * x U) to V; magnitudes compared exactly when every unit factor is int/Fraction used with non-negative exponent, within 1e-9 otherwise; non-trivial = not a bare literal",
         exhaustive=False, samples=samples, outcome_histogram=hist, traces_validated_against_impl=len(trees),
         disagreements=disagreements, kernel_lane_cases=len(model) if model else 0, unit_spellings=len(units)))
